@@ -17,7 +17,9 @@ use serde_json::{Value, json};
 mod k_naming;
 #[cfg(feature = "k_gen")]
 mod k_gen;
-#[cfg(feature = "k_gen")]
+#[cfg(feature = "k_path")]
+mod k_path;
+#[cfg(any(feature = "k_gen", feature = "k_path"))]
 mod facts;
 #[cfg(feature = "k_gen")]
 mod k_resp;
@@ -29,10 +31,14 @@ fn dispatch(op: &str, input: &mut Value) -> OpResult {
   match ns {
     #[cfg(feature = "k_naming")]
     "naming" => k_naming::eval(op, input),
+    #[cfg(feature = "k_path")]
+    "path" => k_path::eval(op, input),
     #[cfg(feature = "k_gen")]
     "gen" => k_gen::eval(op, input),
     #[cfg(feature = "k_gen")]
     "resp" => k_resp::eval(op, input),
+    #[cfg(feature = "k_gen")]
+    "client" | "server" => k_resp::eval_op(op, input),
     _ => Err(format!("unknown-op:{op}")),
   }
 }
